@@ -32,6 +32,9 @@ pub fn power_for_sectors(sector_size: SectorSize, sectors: &[SectorOnChainInfo])
 pub struct Sectors<'db, BS> { p: PhantomData<&'db BS> }
 impl<'db, BS: Blockstore> Sectors<'db, BS> {
     #[verifier::external_body]
-    pub fn load_sectors(&self, sector_numbers: &BitField) -> (r: Result<Vec<SectorOnChainInfo>, ActorError>) { unimplemented!() }
+    /// one info per named sector (an unknown sector number is an error)
+    pub fn load_sectors(&self, sector_numbers: &BitField) -> (r: Result<Vec<SectorOnChainInfo>, ActorError>)
+        ensures r.is_ok() ==> r->Ok_0@.len() == sector_numbers@.len()
+    { unimplemented!() }
 }
 } // verus!
